@@ -20,10 +20,33 @@
  *   exp <l>                        logmath_exp(l)                    -> e <k> <same>
  *        (k = exponent handed to pow(), recovered from the result; same = 1 iff the result is
  *         bit-identical to pow(base, (double)k); `e oor 0` when pow() under- or overflowed)
+ *
+ *   h_c19 hist < ops               HISTORY mode: several logmath objects created, retained, freed and
+ *                                  re-created in ONE process (8 slots + one decoder-owned object)
+ *   new <slot> <base> <shift>      slot = logmath_init(base, shift, 1), becomes current
+ *                                                                    -> cfg <slot> size <n> width <w> shift <s> zero <z>
+ *   new0 <slot> <base> <shift>     the same with use_table = 0      -> cfg <slot> size 0 width 0 shift <s> zero <z>
+ *   retain <a> <b>                 slot b = logmath_retain(slot a)   -> ret <1 iff the same pointer came back>
+ *   free <a>                       logmath_free(slot a), slot emptied, no current object  -> f <return value>
+ *   use <a>                        slot a becomes current            -> cfg <a> size .. (as `new`)
+ *   dec <logbase>                  config_init + `logbase` + decoder_create (no model files); the decoder's
+ *                                  logmath (decoder_logmath, borrowed) becomes current     -> cfg dec size ..
+ *   decre <logbase>                new config with `logbase`, decoder_reinit(d, config): decoder_init_config swaps the
+ *                                  decoder's logmath when the base differs (frees the old one, creates a new one),
+ *                                  then the reinit stops for lack of model files (return value ignored); the
+ *                                  decoder's logmath becomes current                        -> cfg dec size ..
+ *   decuse                         the decoder's logmath becomes current                    -> cfg dec size ..
+ *   decretain <a>                  slot a = logmath_retain(decoder_logmath(d))              -> ret 1
+ *   decfree                        decoder_free, no current object                          -> f <return value>
+ *   table                          the current object's whole table, run-length encoded
+ *                                                                    -> T <width> <size> <v:n,v:n,...>
+ *   tab / add / sweep              as above, on the current object
  */
 #include "common.h"
 #include <math.h>
 #include <soundswallower/logmath.h>
+#include <soundswallower/configuration.h>
+#include <soundswallower/decoder.h>
 
 static unsigned tab_get(logadd_t *t, uint32 i)
 {
@@ -48,6 +71,109 @@ static int dump(double base, int shift)
     return 0;
 }
 
+static void shape_line(const char *name, logmath_t *lm)
+{
+    uint32 size = 0, width = 0;
+    if (lm == NULL) { printf("init-failed\n"); return; }
+    if (LOGMATH_TABLE(lm)->table != NULL)
+        logmath_get_table_shape(lm, &size, &width, NULL);
+    printf("cfg %s size %u width %u shift %d zero %d\n", name, size, width, logmath_get_shift(lm), logmath_get_zero(lm));
+}
+
+#define NSLOT 8
+static int hist_main(void)
+{
+    static char line[1 << 12];
+    char *w[8];
+    logmath_t *slot[NSLOT], *lm = NULL;
+    decoder_t *dec = NULL;
+    int i;
+    for (i = 0; i < NSLOT; i++) slot[i] = NULL;
+    while (fgets(line, sizeof(line), stdin)) {
+        int n = vf_words(line, w, 8);
+        int a = n >= 2 ? atoi(w[1]) : -1, b = n >= 3 ? atoi(w[2]) : -1;
+        if (n == 4 && (!strcmp(w[0], "new") || !strcmp(w[0], "new0")) && a >= 0 && a < NSLOT && slot[a] == NULL) {
+            slot[a] = lm = logmath_init(strtod(w[2], NULL), atoi(w[3]), !strcmp(w[0], "new"));
+            shape_line(w[1], lm);
+        } else if (n == 3 && !strcmp(w[0], "retain") && a >= 0 && a < NSLOT && b >= 0 && b < NSLOT && slot[a] && !slot[b]) {
+            slot[b] = logmath_retain(slot[a]);
+            printf("ret %d\n", slot[b] == slot[a]);
+        } else if (n == 2 && !strcmp(w[0], "free") && a >= 0 && a < NSLOT && slot[a]) {
+            printf("f %d\n", logmath_free(slot[a]));
+            slot[a] = lm = NULL;
+        } else if (n == 2 && !strcmp(w[0], "use") && a >= 0 && a < NSLOT && slot[a]) {
+            lm = slot[a];
+            shape_line(w[1], lm);
+        } else if (n == 2 && !strcmp(w[0], "dec") && dec == NULL) {
+            config_t *c = config_init(NULL);
+            config_set_str(c, "loglevel", "FATAL");
+            config_set_str(c, "logbase", w[1]);
+            dec = decoder_create(c);
+            lm = dec ? decoder_logmath(dec) : NULL;
+            shape_line("dec", lm);
+        } else if (n == 2 && !strcmp(w[0], "decre") && dec) {
+            config_t *c = config_init(NULL);
+            config_set_str(c, "loglevel", "FATAL");
+            config_set_str(c, "logbase", w[1]);
+            (void)decoder_reinit(dec, c);
+            lm = decoder_logmath(dec);
+            shape_line("dec", lm);
+        } else if (n == 1 && !strcmp(w[0], "decuse") && dec) {
+            lm = decoder_logmath(dec);
+            shape_line("dec", lm);
+        } else if (n == 2 && !strcmp(w[0], "decretain") && dec && a >= 0 && a < NSLOT && !slot[a]) {
+            slot[a] = logmath_retain(decoder_logmath(dec));
+            printf("ret %d\n", slot[a] == decoder_logmath(dec));
+        } else if (n == 1 && !strcmp(w[0], "decfree") && dec) {
+            printf("f %d\n", decoder_free(dec));
+            dec = NULL;
+            lm = NULL;
+        } else if (lm == NULL) {
+            printf("no-cfg\n");
+        } else if (n == 1 && !strcmp(w[0], "table")) {
+            uint32 size = 0, width = 0, j, run = 0;
+            unsigned cur = 0;
+            if (LOGMATH_TABLE(lm)->table != NULL)
+                logmath_get_table_shape(lm, &size, &width, NULL);
+            printf("T %u %u ", width, size);
+            for (j = 0; j < size; j++) {
+                unsigned v = tab_get(LOGMATH_TABLE(lm), j);
+                if (run && v == cur) { run++; continue; }
+                if (run) printf("%u:%u,", cur, run);
+                cur = v;
+                run = 1;
+            }
+            if (run) printf("%u:%u", cur, run); else printf("-");
+            printf("\n");
+        } else if (n == 1 && !strcmp(w[0], "tab")) {
+            uint32 size = 0, j;
+            uint64_t h = 0xcbf29ce484222325ULL;
+            if (LOGMATH_TABLE(lm)->table != NULL)
+                logmath_get_table_shape(lm, &size, NULL, NULL);
+            for (j = 0; j < size; j++) {
+                h ^= (uint64_t)tab_get(LOGMATH_TABLE(lm), j);
+                h *= 0x100000001b3ULL;
+            }
+            printf("t %u %llu\n", size, (unsigned long long)h);
+        } else if (n == 3 && !strcmp(w[0], "add")) {
+            printf("r %d\n", logmath_add(lm, atoi(w[1]), atoi(w[2])));
+        } else if (n == 6 && !strcmp(w[0], "sweep")) {
+            long x = atol(w[1]), y = atol(w[2]), dx = atol(w[3]), dy = atol(w[4]), cnt = atol(w[5]), k;
+            printf("s");
+            for (k = 0; k < cnt; k++)
+                printf(" %d", logmath_add(lm, (int)(x + k * dx), (int)(y + k * dy)));
+            printf("\n");
+        } else {
+            printf("bad-op\n");
+        }
+        fflush(stdout);
+    }
+    for (i = 0; i < NSLOT; i++)
+        if (slot[i]) logmath_free(slot[i]);
+    if (dec) decoder_free(dec);
+    return 0;
+}
+
 int main(int argc, char **argv)
 {
     static char line[1 << 12];
@@ -55,6 +181,8 @@ int main(int argc, char **argv)
     logmath_t *lm = NULL, *lm0 = NULL;
     if (argc == 4 && !strcmp(argv[1], "dump"))
         return dump(strtod(argv[2], NULL), atoi(argv[3]));
+    if (argc == 2 && !strcmp(argv[1], "hist"))
+        return hist_main();
     while (fgets(line, sizeof(line), stdin)) {
         int n = vf_words(line, w, 8);
         if (n == 4 && !strcmp(w[0], "cfg")) {
